@@ -369,6 +369,193 @@ def _kw(**kw):
     return {k: v for k, v in kw.items() if v is not None}
 
 
+# ---- integration: flippers, autofire coils, kickback, ball search and software flips ---------------------------------
+I_COILS = ["c_main1", "c_hold1", "c_main2", "c_main3", "c_hold3", "c_main4", "c_af1", "c_af2", "c_af3", "c_kb"]
+I_HOLD_ROLE = {"c_hold1", "c_main2", "c_hold3", "c_main4"}      # coils a flipper holds: they need permission to hold
+I_DEVS = {"flippers": ["f1", "f2", "f3", "f4"], "autofire_coils": ["af1", "af2", "af3"], "kickbacks": ["kb1"]}
+
+@st.composite
+def i_coil_cfg(draw):
+    # constructive: defaults inside the coil's own limits (a default above its limit is rejected at boot)
+    sloppy = draw(st.integers(0, 199)) == 0          # ten coils per machine: keep boot rejections rare
+    mpm = draw(st.sampled_from([None, None, 15, 30, 100]))
+    dpm = draw(st.sampled_from([None, 10, 20, 40, 120]))
+    if mpm and not sloppy and (dpm is None or dpm > mpm):
+        dpm = draw(st.sampled_from([mpm, mpm - 5]))
+    mpp = draw(st.sampled_from([None, None, 0.5]))
+    dpp = draw(st.sampled_from([None, None, 0.25, 0.75]))
+    if mpp and not sloppy and (dpp is None or dpp > mpp):
+        dpp = draw(st.sampled_from([mpp, 0.25]))
+    mhp = draw(st.sampled_from([None, None, 0.5]))
+    dhp = draw(st.sampled_from([None, 0.25, 0.75]))
+    if mhp and dhp and dhp > mhp and not sloppy:
+        dhp = 0.25
+    return {"max_pulse_ms": mpm, "default_pulse_ms": dpm, "max_pulse_power": mpp, "default_pulse_power": dpp,
+            "max_hold_power": mhp, "default_hold_power": dhp, "allow_enable": draw(st.booleans())}
+
+
+i_overwrite = st.one_of(st.none(), st.tuples(st.sampled_from([None, 10, 50, 200]), st.sampled_from([None, 0.3, 0.9]),
+                                             st.sampled_from([None, 0.3, 0.9])).map(
+    lambda t: {k: v for k, v in zip(("pulse_ms", "pulse_power", "hold_power"), t) if v is not None}))
+i_op = st.one_of(
+    st.tuples(st.just("enable"), st.sampled_from(sum(I_DEVS.values(), []))).map(list),
+    st.tuples(st.just("enable"), st.sampled_from(sum(I_DEVS.values(), []))).map(list),
+    st.tuples(st.just("disable"), st.sampled_from(sum(I_DEVS.values(), []))).map(list),
+    st.tuples(st.just("flip"), st.sampled_from(I_DEVS["flippers"])).map(list),
+    st.tuples(st.just("flip"), st.sampled_from(I_DEVS["flippers"])).map(list),
+    st.tuples(st.just("release"), st.sampled_from(I_DEVS["flippers"])).map(list),
+    st.tuples(st.just("button"), st.sampled_from(["s_flip1", "s_flip2", "s_eos2", "s_flip3", "s_eos3", "s_flip4", "s_af1",
+                                                   "s_af2", "s_kb"]), st.integers(0, 1)).map(list),
+    st.tuples(st.just("ball_search"), st.sampled_from([150, 450, 1200])).map(list),
+    st.tuples(st.just("advance"), st.sampled_from([0, 10, 100, 600])).map(list),
+)
+case_integration = st.tuples(
+    st.lists(i_coil_cfg(), min_size=len(I_COILS), max_size=len(I_COILS)),
+    st.lists(i_overwrite, min_size=12, max_size=12),
+    st.sampled_from([0, 0, 5, 40]),
+    st.lists(i_op, min_size=3, max_size=25),
+).map(lambda t: {"coils": dict(zip(I_COILS, t[0])), "overwrites": t[1], "af_delay": t[2], "ops": t[3]})
+
+
+def _i_limits(cfg):
+    full = {"max_hold_duration": None, "default_timed_enable_ms": None}
+    full.update(cfg)
+    return Limits(full, 10, 10)
+
+
+def check_integration(case):
+    """Every pulse/hold setting that reaches the platform from flippers, autofire coils, the kickback, software flips
+    and ball search - as a hardware rule or as a driver call - is inside the limits of the coil it addresses."""
+    patches = {"coils": {}, "flippers": {}, "autofire_coils": {}, "kickbacks": {}}
+    for n, c in case["coils"].items():
+        ent = {k: v for k, v in c.items() if v is not None and k != "allow_enable"}
+        ent["allow_enable"] = bool(c["allow_enable"] or (n in I_HOLD_ROLE and not c["max_hold_power"] and
+                                                          not c["default_hold_power"]))
+        patches["coils"][n] = ent
+    ow = list(case["overwrites"])
+    slots = [("flippers", f, k) for f in I_DEVS["flippers"] for k in ("main_coil_overwrite", "hold_coil_overwrite")] + \
+            [("autofire_coils", a, "coil_overwrite") for a in I_DEVS["autofire_coils"]] + [("kickbacks", "kb1", "coil_overwrite")]
+    for (sec, dev, key), o in zip(slots, ow):
+        if o and not (key == "hold_coil_overwrite" and dev in ("f2", "f4")):
+            patches[sec].setdefault(dev, {})[key] = o
+    for sec, devs in I_DEVS.items():
+        for d in devs:
+            patches[sec].setdefault(d, {}).update({"enable_events": "en_" + d, "disable_events": "dis_" + d})
+    if case["af_delay"]:
+        patches["autofire_coils"].setdefault("af1", {})["coil_pulse_delay"] = case["af_delay"]
+    rig = Rig("rules10", base="fakegame", patches=patches)
+    try:
+        rig.start()
+    except BaseException as e:   # pylint: disable=broad-except
+        return Result(None, ["config-rejected:" + type(e).__name__], False, excluded="configuration rejected at boot")
+    vio = []
+    classes = set()
+    try:
+        m = rig.machine
+        by_hw = {m.coils[n].hw_driver: n for n in I_COILS}
+        lims = {n: _i_limits(dict(case["coils"][n], allow_enable=patches["coils"][n]["allow_enable"])) for n in I_COILS}
+        seen = {"rules": 0, "calls": 0}
+
+        def v(sig, msg):
+            if len(vio) < 5:
+                vio.append(violation(sig, msg))
+
+        def judge(coil, pulse, hold, where):
+            lim = lims[coil]
+            if pulse is not None:
+                if lim.max_pulse_ms and pulse.duration > lim.max_pulse_ms:
+                    v("integration:pulse_ms-above-max", "%s: pulse of %r ms for %s reached the platform, max_pulse_ms is %r" %
+                      (where, pulse.duration, coil, lim.max_pulse_ms))
+                if pulse.duration < 0 or pulse.power < 0:
+                    v("integration:negative", "%s: negative pulse setting %r for %s" % (where, pulse, coil))
+                if pulse.power > lim.eff_max_pp + EPS:
+                    v("integration:pulse_power-above-max", "%s: pulse power %r for %s reached the platform, limit %r" %
+                      (where, pulse.power, coil, lim.eff_max_pp))
+                if pulse.duration >= 0.8 * (lim.max_pulse_ms or 10 ** 9) or pulse.power >= lim.eff_max_pp - 0.3:
+                    classes.add("setting close to a limit reached the platform")
+            if hold is not None and hold.power:
+                if not lim.hold_allowed:
+                    v("integration:hold-not-allowed", "%s: %s is held (power %r) although its configuration does not "
+                      "allow holding" % (where, coil, hold.power))
+                elif hold.power > lim.eff_max_hp + EPS:
+                    v("integration:hold_power-above-max", "%s: hold power %r for %s reached the platform, limit %r" %
+                      (where, hold.power, coil, lim.eff_max_hp))
+        plat = m.default_platform
+        for name in ("set_pulse_on_hit_rule", "set_delayed_pulse_on_hit_rule", "set_pulse_on_hit_and_release_rule",
+                     "set_pulse_on_hit_and_enable_and_release_rule", "set_pulse_on_hit_and_release_and_disable_rule",
+                     "set_pulse_on_hit_and_enable_and_release_and_disable_rule"):
+            orig = getattr(plat, name, None)
+            if orig is None:
+                continue
+
+            def wrapped(*a, _orig=orig, _name=name, **kw):
+                ds = [x for x in list(a) + list(kw.values()) if hasattr(x, "hw_driver") and hasattr(x, "pulse_settings")]
+                for d in ds:
+                    seen["rules"] += 1
+                    judge(by_hw[d.hw_driver], d.pulse_settings, d.hold_settings, "rule " + _name)
+                return _orig(*a, **kw)
+            setattr(plat, name, wrapped)
+        for n in I_COILS:
+            hw = m.coils[n].hw_driver
+            for call in ("pulse", "enable", "timed_enable"):
+                orig = getattr(hw, call)
+
+                def wcall(*a, _orig=orig, _call=call, _n=n):
+                    seen["calls"] += 1
+                    pulse = a[0] if _call in ("pulse",) else (a[0] if a else None)
+                    hold = a[1] if _call in ("enable", "timed_enable") and len(a) > 1 else None
+                    judge(_n, pulse, hold, "driver." + _call)
+                    return _orig(*a)
+                setattr(hw, call, wcall)
+        for o in case["ops"]:
+            if vio:
+                break
+            k = o[0]
+            try:
+                if k == "enable":
+                    m.events.post("en_" + o[1])
+                    rig.run_ready()
+                elif k == "disable":
+                    m.events.post("dis_" + o[1])
+                    rig.run_ready()
+                elif k == "flip":
+                    m.events.post("flip_" + o[1])
+                    rig.run_ready()
+                    classes.add("software flip")
+                elif k == "release":
+                    m.events.post("release_" + o[1])
+                    rig.run_ready()
+                elif k == "button":
+                    m.switch_controller.process_switch(o[1], o[2], logical=True)
+                    rig.run_ready()
+                elif k == "ball_search":
+                    bs = m.playfield.ball_search
+                    bs.enable()
+                    bs.start()
+                    rig.advance(o[1] / 1000.0)
+                    bs.stop()
+                    bs.disable()
+                    rig.run_ready()
+                    classes.add("ball search")
+                elif k == "advance":
+                    rig.advance(o[1] / 1000.0)
+            except Exception as e:   # pylint: disable=broad-except
+                # a refusal (DriverLimitsError and friends) is what the property asks for; it is not a violation
+                classes.add("refused:" + type(e).__name__)
+            for ctx in rig.exceptions:
+                classes.add("refused:" + type(ctx.get("exception")).__name__)
+            del rig.exceptions[:]
+        if seen["rules"]:
+            classes.add("hardware rule installed")
+        if seen["calls"]:
+            classes.add("driver call")
+    finally:
+        rig.stop()
+    nontrivial = "setting close to a limit reached the platform" in classes or any(c.startswith("refused:") for c in classes)
+    return Result(vio or None, sorted(classes) or ["plain"], nontrivial)
+
+
 SUBCHECKS = [
     SubCheck("api", case_strategy, check, quick=3000, thorough=60000, procs_quick=8),
+    SubCheck("integration", lambda: case_integration, check_integration, quick=1500, thorough=30000, procs_quick=6),
 ]
